@@ -8,7 +8,7 @@ from .lib_driver import _rng, qe, gram_dev
 
 def struct_cases(tier, seed):
     rng = _rng(seed + 404)
-    shapes = [[3, 4], [4, 3, 2], [2, 3, 4], [3, 3, 3], [2, 3, 2, 3], [4, 2, 3, 2]]
+    shapes = [[3, 4], [4, 3, 2], [2, 3, 4], [3, 3, 3], [2, 3, 2, 3], [4, 2, 3, 2], [8, 2, 2], [2, 8, 2], [6, 3, 2, 2]]
     if tier == "thorough":
         shapes += [[5, 4, 3], [2, 2, 2, 2, 2], [3, 2, 4, 2], [6, 5], [2, 4, 3, 2, 2]]
     cases = []
@@ -35,6 +35,11 @@ def struct_cases(tier, seed):
                     add("tr", shape, "int", [r], mode=mode)
                 req = [int(rng.randint(1, 3)) for _ in range(N)]
                 add("tr", shape, "list", req + [req[0]], mode=mode)
+                # over-specified bonds (larger than the remaining modes can carry): clipped, never an error --
+                # unless the FIRST core's two bonds do not fit its unfolding (the documented ValueError)
+                for _ in range(3):
+                    req = [int(rng.choice([1, 2, 3, 5, 8, 12])) for _ in range(N)]
+                    add("tr", shape, "list", req + [req[0]], mode=mode)
             add("tr", shape, "list", [1] + [2] * (N - 1) + [2], mode=0)  # ring not closed: must raise
         for r in (1, 2, 3):
             add("tucker", shape, "int", [r])
@@ -69,7 +74,7 @@ def execute(c):
     rng = _rng(c["seed"])
     shape = tuple(c["shape"])
     X = rng.standard_normal(shape)
-    ev = {"id": c["id"], "fam": c["fam"], "shape": list(shape), "kind": c["kind"], "req": list(c["req"]),
+    ev = {"id": c["id"], "fam": c["fam"], "shape": list(shape), "kind": c["kind"], "req": list(c["req"]), "mode": int(c.get("mode", 0)),
           "out": "ok", "ranks": [], "fshapes": [], "orth": [], "core_shape": [], "n_param_dev": 0, "n_param_slack": 0}
     rank = _rank_arg(c)
     try:
